@@ -128,7 +128,8 @@ func specOutstanding(a *Association, tsn uint32) bool {
 
 //@ func Association.handleData
 //@   requires#decoded-chunk chunkPayload != nil
-//@   at call Association.handlePeerLastTSNAndAcknowledgement assert#duplicate-acked-at-once{C19} !canPush ==> arg1
+//@   at call Association.handlePeerLastTSNAndAcknowledgement assert#duplicate-acked-at-once{C19} old(chunkPayload.tsn == a.payloadQueue.cumulativeTSN ||
+//@      specSerLT32(chunkPayload.tsn, a.payloadQueue.cumulativeTSN) || specRpqHas(a.payloadQueue, chunkPayload.tsn)) ==> arg1
 //@   at call Association.handlePeerLastTSNAndAcknowledgement assert#gap-or-ibit-acked-at-once{C19} chunkPayload.immediateSack || sna32GT(chunkPayload.tsn, a.peerLastTSN()+1) || state == shutdownSent ==> arg1
 //@   safety C03
 
